@@ -93,3 +93,45 @@ func vC09Float() {
 }
 
 func vhC09_float() { vC09Float() }
+
+// C04 for Average on CONCRETE values chosen by the solver-decided choice variables from a table that
+// reaches the ends of a narrow element type (the float quotient itself is outside the bit-vector
+// encoding: what is decided is which table entries are combined, the arithmetic runs on concrete
+// floats in the engine and natively): the mean of the emitted values, not of a wrapped sum.
+func vC04AverageOf[T int8 | int16 | int64 | uint8](name string, vals []T) {
+	n := vChoice("n", 4)
+	var in []T
+	want := float64(0)
+	for i := 0; i < n; i++ {
+		v := vals[vChoice("v", len(vals))]
+		in = append(in, v)
+		want += float64(v)
+	}
+	var got []float64
+	done := false
+	Average[T]()(FromSlice(in)).Subscribe(NewObserver(
+		func(v float64) { got = append(got, v) },
+		func(err error) { vAssert(false, name+": Average failed on a source that completed") },
+		func() { done = true },
+	))
+	vAssert(done && len(got) == 1, name+": Average did not emit exactly one value followed by the completion")
+	if n == 0 {
+		vAssert(got[0] != got[0], name+": Average of an empty stream is not NaN")
+	} else {
+		vAssert(got[0] == want/float64(n), name+": Average is not the mean of the emitted values [wrapped or truncated accumulation]")
+	}
+	vReach("end")
+}
+
+func vhC04_average() {
+	switch vChoice("type", 4) {
+	case 0:
+		vC04AverageOf("Average[int8]", []int8{127, 100, -128, 1, 0})
+	case 1:
+		vC04AverageOf("Average[uint8]", []uint8{255, 200, 1, 0})
+	case 2:
+		vC04AverageOf("Average[int16]", []int16{32767, -32768, 3, 0})
+	default:
+		vC04AverageOf("Average[int64]", []int64{math.MaxInt64, math.MinInt64, 1 << 53, 7, 0})
+	}
+}
